@@ -424,7 +424,7 @@ var debugHook func(si int, recv ad.ConstScalar, v ad.ConstVector)
 func runProgram(cs *fw.Case, p *program, nontrivial bool) {
 	witness := func(rec *recorder) map[string]any { return p.encode(rec) }
 	rec := &recorder{cs: cs, p: p}
-	cfg := fmt.Sprintf("%s,order%d", p.T, p.Order)
+	cfg := p.T // the order is part of the detail, not of the signature (one root cause, one cell)
 	rec.viol = func(stage, op, kind, detail string) {
 		cs.Violation(fmt.Sprintf("C01|%s|%s|%s|any|%s", stage, op, cfg, kind), detail, witness(rec))
 	}
